@@ -101,12 +101,14 @@ MV(W, i, j) == IF i < j THEN W[i][j].v ELSE VNeg(W[j][i].v)
 Amb(W, i, j) == IF i < j THEN W[i][j].amb ELSE W[j][i].amb
 
 \* ---- nearest-centre bin of a distance ------------------------------------------------------
+\* A layout also carries den = number of q units per u (4: q = 1/32 nm, dyadic steps; 100: q = 1/800 nm,
+\* decimal steps such as 0.1 or 0.05 nm).  A distance sqrt(d2) u = den sqrt(d2) q.
 E2(h, k) == 2 * h.mq + (2 * k - 1) * h.sq              \* twice the lower edge of bin k (q units)
-AtOrAbove(d2, e2) == e2 <= 0 \/ e2 * e2 <= 64 * d2     \* 4 sqrt(d2) >= e2 / 2
-InBin(h, d2, k) == AtOrAbove(d2, E2(h, k)) /\ ~AtOrAbove(d2, E2(h, k + 1))
+AtOrAbove(h, d2, e2) == e2 <= 0 \/ e2 * e2 <= 4 * h.den * h.den * d2     \* den sqrt(d2) >= e2 / 2
+InBin(h, d2, k) == AtOrAbove(h, d2, E2(h, k)) /\ ~AtOrAbove(h, d2, E2(h, k + 1))
 DistBin(h, d2) ==
   IF \E k \in 0..(h.n - 1) : InBin(h, d2, k) THEN CHOOSE k \in 0..(h.n - 1) : InBin(h, d2, k) ELSE Discard
-OnEdge(h, d2) == \E k \in 0..h.n : E2(h, k) > 0 /\ E2(h, k) * E2(h, k) = 64 * d2
+OnEdge(h, d2) == \E k \in 0..h.n : E2(h, k) > 0 /\ E2(h, k) * E2(h, k) = 4 * h.den * h.den * d2
 
 \* ---- angles on the pi/12 lattice --------------------------------------------------------
 \* angle between integer vectors a, b in units of pi/12, or Discard if it is not such a multiple
@@ -140,12 +142,14 @@ ASSUME /\ PiLoN * 113 < 355 * PiLoD                      \* the brackets are ord
 \* histogram (sequence 1..n, entry k+1 = bin k) of a finite set of items with a bin function
 CountHist(Items, binof, n) == [k \in 1..n |-> Cardinality({x \in Items : binof[x] = k - 1})]
 
-TypeSet(top, t) == {b \in 1..Len(top) : top[b].typ = t}
+\* beads selected by the k-th type pattern of an interaction: it.t[k] is the pattern as written in the
+\* options file (a type name, or a wildcard such as "A*"), it.sel[k] the set of type names it matches
+TypeSet(top, it, k) == {b \in 1..Len(top) : top[b].typ \in it.sel[k]}
 
 \* pairs of a non-bonded interaction: within one list (i<j) or one bead of each list
 NbPairs(top, ias, it, intra) ==
-  LET T1 == TypeSet(top, it.t[1])
-      T2 == TypeSet(top, it.t[2])
+  LET T1 == TypeSet(top, it, 1)
+      T2 == TypeSet(top, it, 2)
       cand == IF it.t[1] = it.t[2] THEN {p \in T1 \X T1 : p[1] < p[2]} ELSE T1 \X T2
   IN {p \in cand : intra \/ ~Excluded(ias, p[1], p[2])}
 
@@ -157,9 +161,9 @@ NbHist(top, ias, it, intra, W) ==
 \* triples (centre; j, k) of a 3-body interaction: both centre distances below cut (cutq in q:
 \* 4 sqrt(d2) < cutq), no excluded pair among the three, {j,k} unordered when type2 = type3
 Triples(top, ias, it, W) ==
-  LET T1 == TypeSet(top, it.t[1])
-      T2 == TypeSet(top, it.t[2])
-      T3 == TypeSet(top, it.t[3])
+  LET T1 == TypeSet(top, it, 1)
+      T2 == TypeSet(top, it, 2)
+      T3 == TypeSet(top, it, 3)
       close(i, j) == i # j /\ 16 * DD(W, i, j) < it.cutq * it.cutq /\ ~Excluded(ias, i, j)
       near(i, T) == {j \in T : close(i, j)}
   IN UNION {{<<i, p[1], p[2]>> : p \in {p \in near(i, T2) \X near(i, T3) :
@@ -184,19 +188,44 @@ AngleHist(ias, it, W) ==
       b == [ia \in I |-> AngBin(it, IaAng(W, ia))]
   IN CountHist(I, b, it.n)
 
+\* IDihedral, IUPAC convention: beads 1-2-3-4, v1 = r2-r1, v2 = r3-r2, v3 = r4-r3, n1 = v1 x v2, n2 = v2 x v3;
+\* |phi| = angle(n1, n2), phi > 0 iff v1.n2 > 0 (0 and pi are unsigned).  Value in units of pi/12
+\* (-11..12), or 99 when the angle between the normals is not on the pi/12 lattice.
+IaDih(W, ia) ==
+  LET v1 == MV(W, ia.ids[1], ia.ids[2])
+      v2 == MV(W, ia.ids[2], ia.ids[3])
+      v3 == MV(W, ia.ids[3], ia.ids[4])
+      n1 == Cross(v1, v2)
+      n2 == Cross(v2, v3)
+      m == AngU(n1, n2)
+  IN IF m = Discard THEN 99 ELSE IF Dot(v1, n2) < 0 THEN -m ELSE m
+\* bin of a signed multiple of pi/12 (negative minima allowed)
+SignedAngBin(h, m) ==
+  LET a == AngIdx(h, m, PiLoN, PiLoD)
+      b == AngIdx(h, m, PiHiN, PiHiD)
+  IN IF m = 99 \/ a # b THEN Undecided ELSE IF a < 0 \/ a >= h.n THEN Discard ELSE a
+DihHist(ias, it, W) ==
+  LET I == {ia \in ias : ia.grp = it.name}
+      b == [ia \in I |-> SignedAngBin(it, IaDih(W, ia))]
+  IN CountHist(I, b, it.n)
+ASSUME /\ SignedAngBin([mq |-> -100, sq |-> 4, n |-> 51, den |-> 4], 12) = 50
+       /\ SignedAngBin([mq |-> -100, sq |-> 4, n |-> 51, den |-> 4], -6) = 12     \* -1.5708 -> centre -1.625
+       /\ SignedAngBin([mq |-> -100, sq |-> 4, n |-> 51, den |-> 4], 0) = 25
+
 InterHist(top, ias, it, intra, W) ==
   CASE it.kind = "nb" -> NbHist(top, ias, it, intra, W)
     [] it.kind = "3b" -> TbHist(top, ias, it, W)
     [] it.kind = "bond" -> BondHist(ias, it, W)
     [] it.kind = "angle" -> AngleHist(ias, it, W)
+    [] it.kind = "dihedral" -> DihHist(ias, it, W)
 
 \* ---- vacuity guards (spec-internal): the scenario exercises the cases a wrong rule would hide in -----
 \* distance just below the range of a layout with min > 0:
 \*   W0 = [min - step/2, min)   belongs to bin 0 (nearest centre)
 \*   W1 = (min - 3 step/2, min - step/2)   is discarded (a truncating index rule would count it in bin 0)
-InW0(h, d2) == h.mq > 0 /\ AtOrAbove(d2, E2(h, 0)) /\ 16 * d2 < h.mq * h.mq
-InW1(h, d2) == /\ E2(h, 0) > 0 /\ ~AtOrAbove(d2, E2(h, 0))
-               /\ LET e == 2 * h.mq - 3 * h.sq IN e < 0 \/ e * e < 64 * d2
+InW0(h, d2) == h.mq > 0 /\ AtOrAbove(h, d2, E2(h, 0)) /\ h.den * h.den * d2 < h.mq * h.mq
+InW1(h, d2) == /\ E2(h, 0) > 0 /\ ~AtOrAbove(h, d2, E2(h, 0))
+               /\ LET e == 2 * h.mq - 3 * h.sq IN e < 0 \/ e * e < 4 * h.den * h.den * d2
 \* some non-bonded interaction with min > 0 has a (non-excluded) pair in W0 and one in W1
 WindowExercised(sc, top, ias, W) ==
   \E x \in 1..Len(sc.inter) :
@@ -210,7 +239,7 @@ WindowExercised(sc, top, ias, W) ==
 \* pair that a grid sized by the LENGTH (N = floor(|b|/rc) >= 4 cells, more than floor(by/rc)) would put
 \* two or more cells apart, i.e. would never compare.  rc = max + step (q units: rcq), s = fractional
 \* coordinate along b = y/by, cell = floor(N s) mod N.
-NLen(len2, rcq) == CHOOSE n \in 0..64 : n * n * rcq * rcq <= 16 * len2 /\ (n + 1) * (n + 1) * rcq * rcq > 16 * len2
+NLen(len2, rcq, den) == CHOOSE n \in 0..64 : n * n * rcq * rcq <= den * den * len2 /\ (n + 1) * (n + 1) * rcq * rcq > den * den * len2
 CircDist(i, j, N) == LET d == MathMod(i - j, N) IN Min2(d, N - d)
 SkewExercised(sc, top, ias, fr, W) ==
   IsTric(fr.box) /\ fr.box[5] = 0 /\ fr.box[6] = 0 /\
@@ -218,22 +247,31 @@ SkewExercised(sc, top, ias, fr, W) ==
     LET it == sc.inter[x]
         rcq == it.mq + it.n * it.sq
         by == fr.box[2]
-        N == NLen(fr.box[4] * fr.box[4] + by * by, rcq)
+        N == NLen(fr.box[4] * fr.box[4] + by * by, rcq, it.den)
         cell(i) == MathMod(FloorDiv(N * fr.pos[i][2], by), N)
     IN /\ it.kind = "nb"
-       /\ N >= 4 /\ N > NLen(by * by, rcq)
+       /\ N >= 4 /\ N > NLen(by * by, rcq, it.den)
        /\ \E p \in NbPairs(top, ias, it, sc.intra) :
              DistBin(it, DD(W, p[1], p[2])) # Discard /\ CircDist(cell(p[1]), cell(p[2]), N) >= 2
+
+\* a dihedral distribution sees a negative and a positive value that are counted (not discarded)
+DihExercised(sc, ias, W) ==
+  \E x \in 1..Len(sc.inter) :
+    LET it == sc.inter[x]
+        I == {ia \in ias : ia.grp = it.name}
+    IN /\ it.kind = "dihedral" /\ it.mq < 0
+       /\ \E ia \in I : IaDih(W, ia) < 0 /\ SignedAngBin(it, IaDih(W, ia)) >= 0
+       /\ \E ia \in I : IaDih(W, ia) \in 1..12 /\ SignedAngBin(it, IaDih(W, ia)) >= 0
 
 \* max (+ step for a triclinic box) of every non-bonded range is at most half the smallest box height
 \* (what BeginEvaluate demands of the first frame; asked of every frame because any may be first)
 HalfBoxOK(it, box) ==
   IF IsTric(box)
-  THEN LET lim == it.mq + it.n * it.sq IN           \* max + step, q units;  lim/4 <= h/2
-       /\ box[5] = 0 /\ box[6] = 0 /\ 2 * Abs(box[4]) <= box[1]
+  THEN LET lim == it.mq + it.n * it.sq IN           \* max + step, q units;  lim/den <= h/2
+       /\ box[5] = 0 /\ box[6] = 0 /\ 2 * Abs(box[4]) <= box[1] /\ it.den = 4
        /\ lim <= 2 * box[2] /\ lim <= 2 * box[3]
        /\ lim * lim * (box[4] * box[4] + box[2] * box[2]) <= 4 * box[1] * box[1] * box[2] * box[2]
-  ELSE \A c \in 1..3 : it.mq + (it.n - 1) * it.sq <= 2 * box[c]
+  ELSE \A c \in 1..3 : 2 * (it.mq + (it.n - 1) * it.sq) <= it.den * box[c]
 
 \* ---- scenario admissibility (spec-internal: a generator that violates it is a spec bug) ------
 \* every angle used is on the pi/12 lattice, has a decided bin, comes from unambiguous images
@@ -246,6 +284,10 @@ AnglesOK(sc, top, ias, W) ==
       [] it.kind = "angle" ->
            \A ia \in {ia \in ias : ia.grp = it.name} :
               ~Amb(W, ia.ids[2], ia.ids[1]) /\ ~Amb(W, ia.ids[2], ia.ids[3]) /\ AngBin(it, IaAng(W, ia)) # Undecided
+      [] it.kind = "dihedral" ->
+           \A ia \in {ia \in ias : ia.grp = it.name} :
+              /\ ~Amb(W, ia.ids[1], ia.ids[2]) /\ ~Amb(W, ia.ids[2], ia.ids[3]) /\ ~Amb(W, ia.ids[3], ia.ids[4])
+              /\ SignedAngBin(it, IaDih(W, ia)) # Undecided
       [] OTHER -> TRUE
 \* some distance of the frame lies exactly on a bin edge of an interaction that bins distances
 HasEdgeTie(sc, top, W) ==
@@ -264,6 +306,9 @@ FrameData(sc, top, ias, f) ==
   IN [h |-> [x \in 1..Len(sc.inter) |-> InterHist(top, ias, sc.inter[x], sc.intra, W)],
       ok |-> AnglesOK(sc, top, ias, W) /\ Distinct(top, W),
       win |-> WindowExercised(sc, top, ias, W),
+      dih |-> DihExercised(sc, ias, W),
       skew |-> SkewExercised(sc, top, ias, sc.frames[f], W),
-      tie |-> HasEdgeTie(sc, top, W)]
+      tie |-> HasEdgeTie(sc, top, W),
+      dectie |-> \E x \in 1..Len(sc.inter) : /\ sc.inter[x].den # 4 /\ sc.inter[x].kind \in {"nb", "bond"}
+                                              /\ \E i \in 1..Len(top) : \E j \in (i + 1)..Len(top) : OnEdge(sc.inter[x], W[i][j].d2)]
 =============================================================================
